@@ -1032,6 +1032,11 @@ func (x *Exec) instr(st *State, in ssa.Instruction) {
 		ch := x.value(t.Chan)
 		vc.regComp("ChanClosed", "(Array Int Bool)")
 		x.implicit(st, in, "send", not(sel(vc.get(st, "ChanClosed"), ch)), "send on closed channel")
+		x.noteSendAttempt(st, ch)
+		if comp, ok := vc.lastSentComp(t.X.Type()); ok {
+			// lastsent(ch): the value of the latest send statement on ch (scalar, reference and interface elements)
+			vc.set(st, comp, store(vc.get(st, comp), ch, x.value(t.X)))
+		}
 	case *ssa.Select:
 		x.selectInstr(st, t)
 	case *ssa.Field:
@@ -1672,6 +1677,7 @@ func (x *Exec) selectInstr(st *State, t *ssa.Select) {
 		} else {
 			// send case
 			x.implicit(st, t, "send", implies(eq(idx, fmt.Sprint(i)), not(sel(closed, ch))), "send on closed channel")
+			x.noteSendAttempt(st, ch)
 		}
 	}
 	x.tups[t] = tup
@@ -1695,6 +1701,34 @@ func (x *Exec) assumeSignal(st *State, ch ssa.Value, cond string) {
 	t := env.evalBool(&CExpr{Op: "call", Name: pred, Args: []*CExpr{{Op: "ident", Name: "$obj"}}})
 	x.vc.assert(implies(and(st.reach, cond), t))
 	x.vc.note("channel-signalled fact assumed after a receive: " + pred)
+}
+
+// lastSentComp: the state component holding the latest value sent per channel, for channels of this element type.
+func (vc *VC) lastSentComp(elem types.Type) (string, bool) {
+	srt := vc.sortOf(elem)
+	var comp string
+	switch srt {
+	case sInt:
+		comp = "LastSent$ref"
+	case sAny:
+		comp = "LastSent$any"
+	case sBool:
+		comp = "LastSent$bool"
+	case sStr:
+		comp = "LastSent$str"
+	default:
+		return "", false
+	}
+	vc.regComp(comp, "(Array Int "+srt+")")
+	return comp, true
+}
+
+// noteSendAttempt: ghost counter of send attempts per channel (a send statement, or a send case of a select whether or
+// not it was the case chosen): contracts use sends(ch) to say that a signal was (not) attempted.
+func (x *Exec) noteSendAttempt(st *State, ch string) {
+	x.vc.regComp("SendAttempts", "(Array Int Int)")
+	cur := x.vc.get(st, "SendAttempts")
+	x.vc.set(st, "SendAttempts", store(cur, ch, app("+", sel(cur, ch), "1")))
 }
 
 func (x *Exec) blockingOp(in ssa.Instruction, what string) {
